@@ -1517,6 +1517,13 @@ impl Zeroconf {
                     self.status = DaemonStatus::Shutdown;
                     #[cfg(feature = "verif-hooks")]
                     crate::verif::yield_point("exit-cleaned");
+
+                    // Drop the commands still queued behind Exit. The queue lives as
+                    // long as any client handle does, so their reply channels would
+                    // otherwise stay open for ever and a client waiting for a reply
+                    // would never return.
+                    while receiver.try_recv().is_ok() {}
+
                     return Some(command);
                 }
                 self.exec_command(command, false);
